@@ -77,6 +77,15 @@ func (g *G) intTok(n int) { g.B.Raw(strconv.Itoa(n), CNum, "integer") }
 
 func (g *G) durTok(d time.Duration) { g.B.Raw(g.DurSpell(d), CDur, "duration") }
 
+// anyDur is posDur, or (outside Simple mode, one time in eight) zero.
+func (g *G) anyDur() time.Duration {
+	if !g.Opt.Simple && g.Rg.P(0.125) {
+		g.feat("dur.zero")
+		return 0
+	}
+	return g.posDur()
+}
+
 func (g *G) posDur() time.Duration {
 	if g.Opt.Simple {
 		return time.Duration(g.next()%170+1) * time.Minute
@@ -114,20 +123,20 @@ func (g *G) measurement(o srcOpts) *influxql.Measurement {
 		m.RetentionPolicy, m.Name = g.Name("rp"), g.Name("m")
 		b.Ident(m.RetentionPolicy)
 		b.PNone(".")
-		b.IdentNone(m.Name)
+		b.IdentAfterDot(m.Name)
 	case 2: // db.rp.m
 		m.Database, m.RetentionPolicy, m.Name = g.Name("db"), g.Name("rp"), g.Name("m")
 		b.Ident(m.Database)
 		b.PNone(".")
-		b.IdentNone(m.RetentionPolicy)
+		b.IdentAfterDot(m.RetentionPolicy)
 		b.PNone(".")
-		b.IdentNone(m.Name)
+		b.IdentAfterDot(m.Name)
 	case 3: // db..m
 		m.Database, m.Name = g.Name("db"), g.Name("m")
 		b.Ident(m.Database)
 		b.PNone(".")
 		b.PNone(".")
-		b.IdentNone(m.Name)
+		b.IdentAfterDot(m.Name)
 	case 4: // /re/
 		m.Regex = g.regexLit()
 		b.Regex(m.Regex.Val.String())
@@ -143,7 +152,7 @@ func (g *G) measurement(o srcOpts) *influxql.Measurement {
 		m.Regex = g.regexLit()
 		b.Ident(m.Database)
 		b.PNone(".")
-		b.IdentNone(m.RetentionPolicy)
+		b.IdentAfterDot(m.RetentionPolicy)
 		b.PNone(".")
 		b.Regex(m.Regex.Val.String())
 		b.ForceGap(GapNone)
@@ -222,20 +231,20 @@ func (g *G) target() *influxql.Target {
 		m.RetentionPolicy, m.Name = g.Name("rp"), g.Name("t")
 		b.Ident(m.RetentionPolicy)
 		b.PNone(".")
-		b.IdentNone(m.Name)
+		b.IdentAfterDot(m.Name)
 	case 2:
 		m.Database, m.RetentionPolicy, m.Name = g.Name("db"), g.Name("rp"), g.Name("t")
 		b.Ident(m.Database)
 		b.PNone(".")
-		b.IdentNone(m.RetentionPolicy)
+		b.IdentAfterDot(m.RetentionPolicy)
 		b.PNone(".")
-		b.IdentNone(m.Name)
+		b.IdentAfterDot(m.Name)
 	case 3:
 		m.Database, m.Name = g.Name("db"), g.Name("t")
 		b.Ident(m.Database)
 		b.PNone(".")
 		b.PNone(".")
-		b.IdentNone(m.Name)
+		b.IdentAfterDot(m.Name)
 	case 4: // rp.:MEASUREMENT
 		m.RetentionPolicy = g.Name("rp")
 		b.Ident(m.RetentionPolicy)
@@ -245,7 +254,7 @@ func (g *G) target() *influxql.Target {
 		m.Database, m.RetentionPolicy = g.Name("db"), g.Name("rp")
 		b.Ident(m.Database)
 		b.PNone(".")
-		b.IdentNone(m.RetentionPolicy)
+		b.IdentAfterDot(m.RetentionPolicy)
 		b.PNone(".")
 		backref()
 	case 6: // db..:MEASUREMENT
@@ -455,6 +464,19 @@ func (g *G) field() *influxql.Field {
 	g.Emit(f.Expr)
 	if g.Rg.P(0.3) {
 		f.Alias = g.Name("al")
+		if !g.Opt.Simple && g.Rg.P(0.15) {
+			// an alias that repeats the name the column would have anyway
+			switch e := f.Expr.(type) {
+			case *influxql.Call:
+				f.Alias = e.Name
+				g.feat("field.alias-equals-default-name")
+			case *influxql.VarRef:
+				if segs := g.segs[e]; len(segs) == 1 {
+					f.Alias = e.Val
+					g.feat("field.alias-equals-default-name")
+				}
+			}
+		}
 		g.B.Kw("AS")
 		g.B.Ident(f.Alias)
 		g.feat("field.alias")
@@ -730,19 +752,19 @@ func init() {
 		if on("SHARD") {
 			with()
 			b.Kw("SHARD DURATION")
-			s.RetentionPolicyShardGroupDuration = g.posDur()
+			s.RetentionPolicyShardGroupDuration = g.anyDur()
 			g.durTok(s.RetentionPolicyShardGroupDuration)
 		}
 		if on("FUTURE") {
 			with()
-			d := g.posDur()
+			d := g.anyDur()
 			b.Kw("FUTURE LIMIT")
 			g.durTok(d)
 			s.FutureWriteLimit = &d
 		}
 		if on("PAST") {
 			with()
-			d := g.posDur()
+			d := g.anyDur()
 			b.Kw("PAST LIMIT")
 			g.durTok(d)
 			s.PastWriteLimit = &d
@@ -773,7 +795,7 @@ func init() {
 		b.Kw("REPLICATION")
 		g.intTok(s.Replication)
 		if on("SHARD") {
-			s.ShardGroupDuration = g.posDur()
+			s.ShardGroupDuration = g.anyDur()
 			b.Kw("SHARD DURATION")
 			g.durTok(s.ShardGroupDuration)
 		}
@@ -782,12 +804,12 @@ func init() {
 			b.Kw("DEFAULT")
 		}
 		if on("FUTURE") {
-			s.FutureWriteLimit = g.posDur()
+			s.FutureWriteLimit = g.anyDur()
 			b.Kw("FUTURE LIMIT")
 			g.durTok(s.FutureWriteLimit)
 		}
 		if on("PAST") {
-			s.PastWriteLimit = g.posDur()
+			s.PastWriteLimit = g.anyDur()
 			b.Kw("PAST LIMIT")
 			g.durTok(s.PastWriteLimit)
 		}
